@@ -216,7 +216,9 @@ def apply_fault(v, d, hist, f, singletons):
     if kind in ("unknown-keyword", "missing-required"):
         blk = nav(d, own[i])
         if kind == "unknown-keyword":
-            blk["zzz_unknown_keyword"] = "x"
+            # names near the hidden-key pattern ^__[a-z]+__$ (only exact matches are hidden keys)
+            names = ["zzz_unknown_keyword", "__foo", "__foo_bar__", "__x1__", "___", "name2", "foo__", "__Foo"]
+            blk[names[(i + len(hist)) % len(names)]] = "x"
         else:
             req = v["schema"]["types"][blk["__type__"]]["required"]
             for r in req:
@@ -277,7 +279,9 @@ def variant_of(d, variant):
         if isinstance(x, tuple):
             return tuple(up_values(e) for e in x)
         if isinstance(x, str):
-            return x.upper()
+            u = x.upper()
+            # only a letter-case variant of the same string (the upper case of sharp s or of ligatures is another string)
+            return u if u.lower() == x.lower() else x
         return x
 
     def up_keys(x):
